@@ -185,5 +185,5 @@ class Registry:
             if fn.endswith(".py") and not fn.startswith("_"):
                 with open(os.path.join(d, fn), "r", encoding="utf-8") as f:
                     code = compile(f.read(), os.path.join(d, fn), "exec")
-                exec(code, dict(ns))  # noqa: S102  (trusted local files)
+                exec(code, ns)  # noqa: S102  (trusted local files; shared namespace)
         return self
